@@ -155,6 +155,31 @@ func scenarioC08(rc *RunCtx) *Violation {
 			rc.Probe("profile_dual_package_both_ways")
 		}
 	}
+	// profile: a package marked "sideEffects": false is imported for its side effects only
+	// (import "pkg") from several files: each such import draws a warning of its own
+	if g.n(6) == 0 && len(p.Pkgs) > 0 {
+		pk := p.Pkgs[g.n(len(p.Pkgs))]
+		pk.SideEffects = 1
+		n := 0
+		for _, m := range p.Mods {
+			if m.Deleted || !isJS(m.Kind) || m.Kind == "cjs" || n >= 4 || g.n(2) == 0 {
+				continue
+			}
+			dup := false
+			for _, im := range m.Imports {
+				if im.Target < 0 && im.Pkg == pk.Name {
+					dup = true
+				}
+			}
+			if !dup {
+				m.Imports = append(m.Imports, Import{Target: -1, Pkg: pk.Name, Style: ImpSideEffect})
+				n++
+			}
+		}
+		o.Bundle = true
+		o.Packages = 0
+		rc.Probe("profile_bare_imports_of_side_effect_free_package")
+	}
 	kind := perturb(g, p, o)
 	// a second, unrelated project for sibling builds in the same process
 	p2 := GenProject(g, "/q")
